@@ -18,6 +18,8 @@ let zs s = z_of_string s
 let ni s = n_of_int (int_of_string s)
 let batch = if Array.length Sys.argv > 1 then zs Sys.argv.(1) else zs "1000"
 let cap = if Array.length Sys.argv > 2 then zs Sys.argv.(2) else zs "20000"
+(* argv.(3) = "unfixed": the model of the code as found (before the C08 repairs) *)
+let fx = if Array.length Sys.argv > 3 && Sys.argv.(3) = "unfixed" then as_found else repaired
 
 let cls_of code param : oclass =
   match code with
@@ -76,7 +78,7 @@ let () =
         Hashtbl.replace blocks bid { b_id = n_of_int bid; b_prev = n_of_int prev; b_height = zs h; b_txs = List.rev !cur_txs };
         cur_b := None; cur_txs := [] in
   let get () = match !sim with Some s -> s | None -> failwith "no history" in
-  let step e = sim := Some (xstep !params batch cap (get ()) e) in
+  let step e = sim := Some (xstep fx !params batch cap (get ()) e) in
   let set_st st = let s = get () in sim := Some { s with xs_st = st } in
   let report_of st w =
     match use_wallet st w with
@@ -110,7 +112,7 @@ let () =
         let s = get () in
         let b = Hashtbl.find blocks (int_of_string bid) in
         let r = if s.xs_crashed then "dead" else
-            match xprocess !params s.xs_node s.xs_st b with XOk _ -> "ok" | XErr -> "err" | XPanic -> "panic" in
+            match xprocess fx !params s.xs_node s.xs_st b with XOk _ -> "ok" | XErr -> "err" | XPanic -> "panic" in
         incr k;
         Printf.printf "P\t%s\t%d\t%s\t%s\t%s\n" !hist !k bid impl r;
         step (XProcess b)
@@ -173,7 +175,7 @@ let () =
     | ["R"; "round"; w; status] ->
         let s = get () in
         incr k;
-        let (st', _) = remove_round cap (find_tx s.xs_all) s.xs_st (ni w) in
+        let (st', _) = remove_round fx cap s.xs_node (find_tx s.xs_all) s.xs_st (ni w) in
         Printf.printf "R\t%s\t%d\tround\t%s\t%s\t%s\n" !hist !k w status (show_status (status_of st' (ni w)));
         set_st st'
     | ["R"; "restart"; impl] ->
@@ -212,7 +214,7 @@ let () =
          | ["await"; bid] ->
              let b = Hashtbl.find blocks (int_of_string bid) in
              let r = if s.xs_crashed then "dead" else
-                 match xprocess !params s.xs_node s.xs_st b with XOk _ -> "ok" | XErr -> "err" | XPanic -> "panic" in
+                 match xprocess fx !params s.xs_node s.xs_st b with XOk _ -> "ok" | XErr -> "err" | XPanic -> "panic" in
              Printf.printf "P\t%s\t%d\t%s\t%s\t%s\n" !hist !k bid why r;
              step (XProcess b)
          | _ -> Printf.printf "F\t%s\t%d\t%s\t%s\n" !hist !k why !last_d)
